@@ -6,8 +6,8 @@
       makes sure the repository's own tests pass with it, runs the checks (default: all twenty) against the patched tree
       and stores the case under benign/<property>-b<n>/ (patch.diff, BENIGN.md, meta.json).  A check that does not exit 0
       on such a tree is a false alarm (rc 1) or lost its reach (rc 2) and has to be looked at.
-  tools/benign.py run [name-substring ...] [--tier quick] [--checks ...]
-      re-runs the checks against every stored benign change.
+  tools/benign.py run [name-substring ...] [--tier quick] [--checks ... | --relevant]
+      re-runs the checks (--relevant: those that execute code of the files the change touches) against every stored benign change.
 Scratch worktrees live under /var/tmp and are removed afterwards.
 """
 import json, os, shutil, subprocess, sys, tempfile, time
@@ -15,6 +15,26 @@ import json, os, shutil, subprocess, sys, tempfile, time
 HERE = os.path.dirname(os.path.dirname(os.path.abspath(__file__)))
 BENIGN = os.path.join(HERE, 'benign')
 ALL = [f'C{i:02d}' for i in range(1, 21)]
+# which checks execute code of which repository file (for --relevant: the regression run over all stored changes)
+RELEVANT = {
+    'logic.py': 'C01 C02 C05 C12 C15 C16 C18',
+    'logic_sim.py': 'C01 C02 C05 C06 C07 C08 C10 C11 C16 C18 C19',
+    'sim.py': 'C01 C02 C03 C04 C05 C06 C07 C08 C10 C11 C13 C16 C18',
+    'wave_sim.py': 'C03 C04 C05 C06 C07 C08 C13',
+    'circuit.py': 'C01 C03 C07 C08 C09 C10 C11 C14 C16 C17 C18 C19',
+    'verilog.py': 'C01 C08 C09 C10 C11 C14 C19', 'bench.py': 'C01 C08 C09 C10 C11 C17 C19',
+    'techlib.py': 'C09 C10 C11 C14 C19', 'sdf.py': 'C14', 'stil.py': 'C18', 'def_file.py': 'C20',
+    '__init__.py': 'C03 C04 C05 C06 C07 C08 C11 C13 C14 C15 C18 C20',
+}
+
+
+def relevant_checks(patch, prop):
+    import re
+    files = set(re.findall(r'^\+\+\+ b/src/kyupy/(\S+)', open(patch).read(), flags=re.M))
+    out = {prop} if prop in ALL else set()
+    for f in files:
+        out.update(RELEVANT.get(f, ' '.join(ALL)).split())
+    return sorted(out)
 
 
 def sh(cmd, **kw):
@@ -103,7 +123,7 @@ def rerun(filters, tier, checks):
                 print(name, 'STALE: patch no longer applies')
                 res.append((name, 'stale'))
                 continue
-            out = run_checks(d, checks, tier)
+            out = run_checks(d, relevant_checks(os.path.join(BENIGN, name, 'patch.diff'), meta.get('property', '')) if RELEVANT_ONLY else checks, tier)
             meta.setdefault('checks', {}).update(out)
             json.dump(meta, open(mp, 'w'), indent=1)
             bad = {k: v['verdict'] for k, v in out.items() if v['rc']}
@@ -116,8 +136,11 @@ def rerun(filters, tier, checks):
     return 1 if bad else 0
 
 
+RELEVANT_ONLY = False
+
 if __name__ == '__main__':
     a = sys.argv[1:]
+    RELEVANT_ONLY = '--relevant' in a
     tier = a[a.index('--tier') + 1] if '--tier' in a else 'quick'
     checks = a[a.index('--checks') + 1].split(',') if '--checks' in a else ALL
     if a and a[0] == 'add':
